@@ -174,6 +174,57 @@ pub mod unit {
         &&& (!h0.contains_key(b) || (w0.contains_key(r) && b == w0[r] && !w1.contains_key(r) && h1 == h0))
     }
 
+    /// The live bucket `bk` has been put on the worktop: its amount and ids are added to the worktop's holding of its
+    /// resource, nothing else changes, and the bucket is either the worktop's bucket of that resource now or no
+    /// longer exists (merged into it / dropped because empty)
+    pub open spec fn was_put(w0: WMap, h0: Buckets, w1: WMap, h1: Buckets, bk: Own) -> bool {
+        let r = h0[bk].resource;
+        &&& h0.contains_key(bk)
+        &&& on_worktop(w1, h1, r) == on_worktop(w0, h0, r) + h0[bk].amount
+        &&& ids_on_worktop(w1, h1, r) =~= ids_on_worktop(w0, h0, r).union(h0[bk].ids)
+        &&& w1.remove(r) =~= w0.remove(r)
+        &&& (w0.contains_key(r) ==> w1.contains_key(r) && w1[r] == w0[r])
+        &&& frame2(h0, h1, bk, if w0.contains_key(r) { w0[r] } else { bk })
+        &&& ((w1.contains_key(r) && w1[r] == bk && !w0.contains_key(r) && h1 == h0) || !h1.contains_key(bk))
+    }
+
+    // ---- "total value is invariant across each call", per resource (amounts of different resources are not
+    //      commensurable, so the per-resource statement is the strongest form of  Sigma_worktop + Sigma_returned) ----
+    /// `took` conserves r (by definition: left + returned == before) and leaves EVERY other resource's holding as it was
+    pub proof fn lemma_took_conserves(f0: Fields, h0: Buckets, f1: Fields, h1: Buckets, r: ResourceAddress, b: Own, r2: ResourceAddress)
+        requires wf(f0, h0), took(wt(f0), h0, wt(f1), h1, r, b), r2 != r
+        ensures on_worktop(wt(f1), h1, r2) == on_worktop(wt(f0), h0, r2),
+                ids_on_worktop(wt(f1), h1, r2) == ids_on_worktop(wt(f0), h0, r2),
+    {
+        let w0 = wt(f0); let w1 = wt(f1);
+        assert(w1.remove(r).contains_key(r2) == w0.remove(r).contains_key(r2));
+        if w0.contains_key(r2) {
+            assert(w1.remove(r)[r2] == w0.remove(r)[r2]);
+            let o = w0[r2];
+            let x = if w0.contains_key(r) { w0[r] } else { b };
+            assert(wt(f0).contains_key(r2));
+            if w0.contains_key(r) { assert(wt(f0).contains_key(r)); }
+            lemma_frame2(h0, h1, b, x, o);
+        }
+    }
+    /// `was_put` adds the bucket's amount to its resource and leaves EVERY other resource's holding as it was
+    pub proof fn lemma_put_conserves(f0: Fields, h0: Buckets, f1: Fields, h1: Buckets, bk: Own, r2: ResourceAddress)
+        requires wf(f0, h0), was_put(wt(f0), h0, wt(f1), h1, bk), r2 != h0[bk].resource
+        ensures on_worktop(wt(f1), h1, r2) == on_worktop(wt(f0), h0, r2),
+                ids_on_worktop(wt(f1), h1, r2) == ids_on_worktop(wt(f0), h0, r2),
+    {
+        let w0 = wt(f0); let w1 = wt(f1); let r = h0[bk].resource;
+        assert(w1.remove(r).contains_key(r2) == w0.remove(r).contains_key(r2));
+        if w0.contains_key(r2) {
+            assert(w1.remove(r)[r2] == w0.remove(r)[r2]);
+            let o = w0[r2];
+            let x = if w0.contains_key(r) { w0[r] } else { bk };
+            assert(wt(f0).contains_key(r2));
+            if w0.contains_key(r) { assert(wt(f0).contains_key(r)); }
+            lemma_frame2(h0, h1, bk, x, o);
+        }
+    }
+
     // ---- FieldSubstate (radix-engine/src/system/system_substates.rs), used by `drop` ----------------
     impl<V> FieldSubstate<V> {
         /*@fn radix-engine/src/system/system_substates.rs :: impl<V> FieldSubstate<V> :: fn new_field
@@ -491,7 +542,7 @@ pub mod unit {
                 // a non-empty set of ids is not contained in the (empty) holding of an absent resource
                 if ids@.subset_of(Set::<Id>::empty()) { assert(ids@ =~= Set::<Id>::empty()); }
             }
-        @before <<if !existing_non_fungibles.is_superset(&ids)>> #1
+        @after <<let existing_non_fungibles>> #1
             proof {
                 if ids@.subset_of(existing_non_fungibles@) { lemma_nf_split(existing_non_fungibles@, ids@); }
             }
@@ -554,7 +605,7 @@ pub mod unit {
                         && final(api).handles() =~= old(api).handles()),
                 ret matches Err(e) ==> (e.is_worktop_error() ==> false),
         @closure 1 := |e: DecodeError| -> (r: RuntimeError) ensures r == err_decode(e)
-        @before <<worktop.resources.clear()>> #1
+        @after <<let buckets>> #1
             proof { lemma_drain(&worktop.resources, api.fields(), api.buckets()); }
         @*/
 
@@ -568,17 +619,8 @@ pub mod unit {
                     let bk = i.bucket.0;
                     let w0 = wt(old(api).fields()); let h0 = old(api).buckets();
                     let w1 = wt(final(api).fields()); let h1 = final(api).buckets();
-                    let r = h0[bk].resource;
-                    &&& ret matches Ok(v) ==> (v.wire() is Unit && h0.contains_key(bk)
-                            // put adds exactly the bucket's amount (and ids) to the worktop's holding of its resource
-                            && on_worktop(w1, h1, r) == on_worktop(w0, h0, r) + h0[bk].amount
-                            && ids_on_worktop(w1, h1, r) =~= ids_on_worktop(w0, h0, r).union(h0[bk].ids)
-                            // nothing else changes
-                            && w1.remove(r) =~= w0.remove(r)
-                            && (w0.contains_key(r) ==> w1.contains_key(r) && w1[r] == w0[r])
-                            && frame2(h0, h1, bk, if w0.contains_key(r) { w0[r] } else { bk })
-                            // the bucket is now r's worktop bucket, or it no longer exists (merged into it / dropped empty)
-                            && ((w1.contains_key(r) && w1[r] == bk && !w0.contains_key(r) && h1 == h0) || !h1.contains_key(bk))
+                    // Ok ==> put adds exactly the bucket's amount (merging into an existing bucket of that resource)
+                    &&& ret matches Ok(v) ==> (v.wire() is Unit && was_put(w0, h0, w1, h1, bk)
                             && wf(final(api).fields(), h1) && fields_frame(old(api).fields(), final(api).fields())
                             && final(api).handles() =~= old(api).handles())
                     // the worktop itself never refuses
@@ -593,15 +635,18 @@ pub mod unit {
                 lemma_wf_drop_other(api.fields(), old(api).buckets(), bk);
                 if wt(api.fields()).contains_key(resource_address) { assert(wt(api.fields())[resource_address] != bk); }
             }
-        @after <<Bucket(own).put(input.bucket, api)?>> #1
+        @before <<api.field_close(worktop_handle)?>> #1
             proof {
-                let h0 = old(api).buckets();
-                lemma_nf_merge(h0[own].ids, h0[bk].ids);
-                lemma_wf_merge(api.fields(), h0, api.buckets(), resource_address, own, bk);
-            }
-        @after <<api.field_write_typed(worktop_handle, &worktop)?>> #1
-            proof {
-                lemma_wf_insert(old(api).fields(), api.fields(), api.buckets(), resource_address, bk);
+                let h0 = old(api).buckets(); let w0 = wt(old(api).fields());
+                if w0.contains_key(resource_address) {
+                    // merged into the worktop's bucket of that resource
+                    let own = w0[resource_address];
+                    lemma_nf_merge(h0[own].ids, h0[bk].ids);
+                    lemma_wf_merge(api.fields(), h0, api.buckets(), resource_address, own, bk);
+                } else {
+                    // filed as the worktop's bucket of that resource
+                    lemma_wf_insert(old(api).fields(), api.fields(), api.buckets(), resource_address, bk);
+                }
             }
         @*/
 
